@@ -250,7 +250,12 @@ func runC03Req(c *Ctx, wl *walkLayers) {
 							strict = known && !b
 						}
 					default:
-						strict = true
+						// a plain bool parameter instead of the optional variadic one
+						if b, known := isCstBool(f); known {
+							strict = !b
+						} else {
+							strict = true
+						}
 					}
 					if mask&kmask(reflect.Ptr) != 0 && strict {
 						descendBad = append(descendBad, "a non-empty pointer under required is handed to the struct walker in its 'must be a struct' mode: a pointer to a scalar yields an 'is not struct' clause")
